@@ -195,6 +195,35 @@ impl<'a> Exec<'a> {
         e.probes.retain(|va| rec.map_or(true, |r| (va >> 39) & 0x1ff != r as u64));
         set_run(&mut *e.rs as *mut RunState);
         *e.stats.views.entry(cfg.view.name().to_string()).or_insert(0) += 1;
+        // environment variants of the run (reported with the views)
+        let mem_kind = if cfg.sparse_garbage {
+            "memory:sparse_garbage"
+        } else if cfg.even_garbage {
+            "memory:garbage_without_present_bit"
+        } else {
+            "memory:live_looking_garbage"
+        };
+        let mut env: Vec<&str> = vec![mem_kind];
+        if cfg.zero_data {
+            env.push("memory:zero_data_frames");
+        }
+        if cfg.persist {
+            env.push("mapper:one_object_per_run");
+        } else {
+            env.push("mapper:fresh_object_per_call");
+        }
+        if cfg.rec_alias && matches!(cfg.view, View::Recursive { .. }) {
+            env.push("mapper:recursive_through_alias");
+        }
+        if cfg.tlb {
+            env.push("tlb_model_on");
+        }
+        if cfg.pcide {
+            env.push("cr4_pcide");
+        }
+        for k in env {
+            *e.stats.views.entry(k.to_string()).or_insert(0) += 1;
+        }
         e.stats.runs += 1;
         e
     }
@@ -505,8 +534,12 @@ impl<'a> Exec<'a> {
             let _ = s;
         }
         if out.flush_all {
-            let exp = vec![Ev::ReadCr { cr: 3, val: cr3_before }, Ev::WriteCr { cr: 3, val: cr3_before }];
-            if out.flush_trace != exp {
+            // one write of the value the register holds, preceded by a read; further reads (a
+            // read-back, say) are the implementation's business, anything else is not
+            let writes: Vec<u64> = out.flush_trace.iter().filter_map(|e| if let Ev::WriteCr { cr: 3, val } = e { Some(*val) } else { None }).collect();
+            let only_cr3 = out.flush_trace.iter().all(|e| matches!(e, Ev::ReadCr { cr: 3, .. } | Ev::WriteCr { cr: 3, .. }));
+            let read_first = matches!(out.flush_trace.first(), Some(Ev::ReadCr { cr: 3, .. }));
+            if !only_cr3 || !read_first || writes != [cr3_before] {
                 return Err(viol(&["C11"], "flush-all-trace", i, format!("{}: flush_all executed {:x?}, expected a reload of CR3 with its current value {:#x}", step.opname(), out.flush_trace, cr3_before)));
             }
         }
